@@ -226,6 +226,7 @@ PROPS["C17"] = {
 PROPS["C18"] = {
     "engines": ENG,
     "jobs": [
+        J("acf-many-lags", "statcheck", "rel", 5, 1, 12, timeout=300, chunk=1),
         J("order-asan", "statcheck", "asan", 2, 1500, 60000, timeout=120),
         J("hist-asan", "statcheck", "asan", 3, 1000, 40000),
         J("acf-asan", "statcheck", "asan", 4, 600, 20000),
@@ -344,6 +345,8 @@ _sf("C14", "recording", ["mixed"],
 
 _add_job("C12", J("exp-queues-in-concurrent-trials", "expcheck", "rel", 2, 24, 3000, timeout=300, chunk=2, claim="C12/concurrent-trials/"))
 _add_job("C12", J("exp-queues-in-concurrent-trials-tsan", "expcheck", "tsan", 2, 4, 100, timeout=600, chunk=1, claim="C12/concurrent-trials/"))
+_add_job("C20", J("exp-static-pools-in-concurrent-trials", "expcheck", "rel", 0, 16, 2000, timeout=300, chunk=2, claim="C20/concurrent-trials/"))
+_add_job("C20", J("exp-static-pools-in-concurrent-trials-tsan", "expcheck", "tsan", 1, 4, 100, timeout=600, chunk=1, claim="C20/concurrent-trials/"))
 _add_job("C04", J("sf-directed-clear-and-continue", "simfuzz", "rel", 104, 480, 4800))
 _add_job("C04", J("sf-directed-same-instant-restart", "simfuzz", "rel", 106, 1344, 2688))
 _add_job("C09", J("sf-directed-clear-and-continue", "simfuzz", "rel", 104, 480, 4800))
